@@ -141,7 +141,8 @@ class Scan:
 
     # ------------------------------------------------------------------ helpers
     def add(self, file, name, site, kind, key, after):
-        k = (name, kind, site) if kind in ("inPlaceClassAttr", "inPlaceCacheEntry") else (name, kind)   # one row per in-place write SITE
+        k = (name, kind, site) if kind in ("inPlaceClassAttr", "inPlaceCacheEntry", "earlyBoundClassAttr") \
+            else (name, kind)   # one row per in-place write SITE
         if k in self.rows:
             r = self.rows[k]
             r["writtenAfterDef"] = r["writtenAfterDef"] or after
@@ -248,6 +249,7 @@ class Scan:
         self.pass_inplace()
         self.pass_key_completeness()
         self.pass_cache_entry_mutation()
+        self.pass_early_bound()
         return sorted(self.rows.values(), key=lambda r: (r["file"], r["name"], r["kind"], r["site"]))
 
     # ------------------------------------------------------------------ data/control dependencies
@@ -347,6 +349,53 @@ class Scan:
                         r["key"], r["site"] = "partialArgs", f.qual
                     else:
                         self.add(file, ref, f.qual, "dict", "partialArgs", True)
+
+    def pass_early_bound(self):
+        """an attribute that operations write onto classes after definition (`serialize`, …) must be looked
+        up when it is used: a function that reads it from ANOTHER class than its subject once, and lets a
+        closure it returns / installs capture the value, freezes whatever that class had at generation time"""
+        postdef = {r["name"][4:] for r in self.rows.values()
+                   if r["kind"] == "classAttrWrite" and r["name"].startswith("cls.")}
+        for f in self.funcs:
+            nested = [n for n in ast.walk(f.node)
+                      if n is not f.node and isinstance(n, (ast.FunctionDef, ast.AsyncFunctionDef, ast.Lambda))]
+            if not nested:
+                continue
+            captured = set()
+            for g in nested:
+                params = {a.arg for a in g.args.args + g.args.kwonlyargs + g.args.posonlyargs}
+                for n in ast.walk(g):
+                    if isinstance(n, ast.Name) and isinstance(n.ctx, ast.Load) and n.id not in params:
+                        captured.add(n.id)
+            for n in f.body_nodes():
+                if not (isinstance(n, ast.Assign) and len(n.targets) == 1 and isinstance(n.targets[0], ast.Name)):
+                    continue
+                name, v = n.targets[0].id, n.value
+                attr, src = None, None
+                if isinstance(v, ast.Attribute):
+                    attr, src = v.attr, v.value
+                elif isinstance(v, ast.Call) and isinstance(v.func, ast.Name) and v.func.id == "getattr" \
+                        and len(v.args) >= 2:
+                    attr, src = self.const_str(v.args[1]), v.args[0]
+                if attr in postdef and name in captured and self.is_class_expr(f, src) != "own" \
+                        and self.denotes_class(f, src):
+                    self.add(f.file, "cls." + attr, f.qual, "earlyBoundClassAttr", "otherClass", True)
+
+    def denotes_class(self, f, e, depth=0):
+        """the expression (or the local it names) is a class reached from a field or instance:
+        `x._ty`, `x._newclass`, `x.__class__`, a class parameter, a member of an MRO"""
+        src = ast.dump(e)
+        if any(("attr='" + a + "'") in src for a in ("_ty", "_newclass", "__class__", "__mro__", "__bases__", "__base__")):
+            return True
+        if isinstance(e, ast.Name):
+            if e.id in CLASS_PARAMS and e.id in f.all_params():
+                return True
+            if depth < 3:
+                for n in f.body_nodes():
+                    if isinstance(n, ast.Assign) and any(isinstance(t, ast.Name) and t.id == e.id for t in n.targets):
+                        if self.denotes_class(f, n.value, depth + 1):
+                            return True
+        return False
 
     def pass_cache_entry_mutation(self):
         """an object handed out by a cache (a registry entry returned by its memo function, the result of
